@@ -131,6 +131,15 @@ def cases(tier, rng):
         rng.shuffle(perm)
         yield {"op": rng.choice(["change_view", "retarget_view"]), "src": A, "tgt": alph[b], "rows": rows, "view": view, "perm": perm,
                "mask": [rng.random() < 0.6 for _ in rows], "names": [a, b]}
+    # 3c. long lists of strings (size thresholds of list fast paths: 1000/1001/4097 rows) with one foreign byte (incl. NUL) somewhere
+    for n_rows in ((1000, 1001, 4097) if big else (1001,)):
+        for n in ("ACGTEncoding", "AminoAcidEncoding"):
+            A = alph[n]
+            for bad in (None, 0, 88, 10):
+                rows = [[A[(i + k) % len(A)] for k in range(1 + i % 3)] for i in range(n_rows)]
+                if bad is not None:
+                    rows[n_rows // 2][0] = bad
+                yield {"op": "enc_ragged", "enc": n, "rows": rows}
     # 4. re-targeting and change_encoding between every ordered pair
     names = list(encs)
     for a in names:
@@ -338,7 +347,16 @@ def live_cases(tier, rng):
     out = [c for c in cases("quick", rng) if c["op"] in ("enc_str", "enc_ragged", "change", "retarget", "change_view", "retarget_view")
            and not isinstance(oracle(c), core.Skip)]
     rng.shuffle(out)
-    return out[: (3000 if tier in ("thorough", "widen") else 700)]
+    keep = []
+    for c in out:
+        if len(c.get("rows", [])) > 50:
+            continue
+        r = impl(c)
+        if isinstance(r, dict) and "err" not in r:      # pairs of calls that return (raising calls are judged by the ordinary cases)
+            keep.append(c)
+        if len(keep) >= (3000 if tier in ("thorough", "widen") else 700):
+            break
+    return keep
 
 
 def impl_live(c):
@@ -363,3 +381,19 @@ def impl_live(c):
     v = _select_view(x, c)
     y = as_encoded_array(v, T) if op == "retarget_view" else change_encoding(v, T)
     return y, (lambda o: {"rows": [[int(b) for b in T.decode(row).raw().ravel()] for row in o]})
+
+
+def mutate_live(obj, c):
+    """overwrite the first element of an encoded result with another letter of its own alphabet"""
+    from bionumpy.encoded_array import EncodedArray, EncodedRaggedArray
+    flat = obj.ravel() if isinstance(obj, EncodedRaggedArray) else obj
+    if not isinstance(flat, EncodedArray) or flat.size == 0:
+        return False
+    raw = flat.raw()
+    if not raw.flags.writeable:
+        return False
+    n = len(obj.encoding.get_alphabet()) if hasattr(obj.encoding, "get_alphabet") else 0
+    if n < 2:
+        return False
+    raw[0] = (int(raw[0]) + 1) % n
+    return True
